@@ -164,13 +164,15 @@ impl Property for C16 {
         // converse on one terminator kind at a time: neutral characters (no brackets, particles, alphanumerics)
         // and runs of a single terminator unit; every run must end a sentence
         let sparse = (
-            vec(simple_word(), 0..5),
-            select(vec!["。", "？", "！", "♪", "…", "?", "!", ".", "．", "・・・", "<br><br>", "<BR><BR>", "<br><BR>", "<BR><br><BR>"]),
-            vec(prop_oneof![5 => select(vec!["あ", "い", "漢", "字", "な", "娘", "モ", "ー"]).prop_map(|x| Some(x)), 1 => Just(None)], 0..30),
+            prop_oneof![1 => vec(simple_word(), 0..5), 1 => vec(prop_oneof![simple_word(), select(vec!["な。な", "娘。", "。な", "あ。あ", "モー娘。"]).prop_map(|x| x.to_string())], 1..5)],
+            select(vec!["。", "。", "。", "。", "。", "？", "！", "♪", "…", "?", "!", ".", "．", "・・・", "<br><br>", "<BR><BR>", "<br><BR>", "<BR><br><BR>"]),
+            vec(prop_oneof![5 => select(vec!["あ", "い", "漢", "字", "な", "娘", "モ", "ー", "な。な", "娘。"]).prop_map(|x| Some(x)), 1 => Just(None)], 0..30),
             any::<bool>(),
         )
             .prop_map(|(words, term, body, checker)| {
-                let text: String = body.iter().map(|p| p.unwrap_or(term)).collect();
+                // pieces and words that contain 。 only take part when 。 is the terminator under test
+                let text: String = body.iter().map(|p| p.unwrap_or(term)).map(|p| if p.contains('。') && term != "。" { "な" } else { p }).collect();
+                let words: Vec<String> = words.into_iter().filter(|w| term == "。" || !w.contains('。')).collect();
                 Case { words, text, limit: None, checker, simple: true, user_words: vec![], term: Some(term.to_string()) }
             });
         prop_oneof![12 => general, 4 => simple, 4 => sparse, 1 => straddle, tier.pick(0, 2) => long].boxed()
@@ -187,7 +189,10 @@ impl Property for C16 {
             for limit in [200_000usize, 1_000_000, usize::MAX / 2] {
                 for (unit, tail) in [("あ", "。いう。"), ("a", ".b c."), ("1.", "。")] {
                     let text = format!("{}{}", unit.repeat(*n / unit.chars().count()), tail);
-                    fam.push((format!("{} x {:?} under window {}", n, unit, limit), Case { words: vec![], user_words: vec![], text, limit: Some(limit), checker: false, simple: false, term: None }));
+                    let converse = unit == "あ";
+                    for checker in [false, true] {
+                        fam.push((format!("{} x {:?} under window {} checker {}", n, unit, limit, checker), Case { words: vec![], user_words: vec![], text: text.clone(), limit: Some(limit), checker, simple: converse, term: if converse { Some("。".to_string()) } else { None } }));
+                    }
                 }
             }
         }
@@ -339,6 +344,26 @@ impl Property for C16 {
                         i += 1;
                     }
                 }
+            }
+            if case.checker {
+                // a run end is not a break if a dictionary word (of more than one character when it ends exactly there)
+                // that starts within the 30 bytes before it reaches or crosses it; the sentence then goes on
+                let words: Vec<&String> = case.words.iter().chain(case.user_words.iter()).collect();
+                let mut bos = 0usize;
+                let mut kept = Vec::new();
+                for e in want.iter().cloned() {
+                    let from = std::cmp::max(30, e - bos) - 30 + bos;
+                    let veto = (from..e).filter(|i| text.is_char_boundary(*i)).any(|i| {
+                        words.iter().any(|w| text[i..].starts_with(w.as_str()) && (i + w.len() > e || (i + w.len() == e && w.chars().count() > 1)))
+                    });
+                    if veto {
+                        rep.class("converse: run inside a dictionary word (no break)");
+                    } else {
+                        kept.push(e);
+                        bos = e;
+                    }
+                }
+                want = kept;
             }
             if want.last() != Some(&text.len()) && !text.is_empty() {
                 want.push(text.len());
